@@ -55,6 +55,11 @@ Definition gkernel (sd : float) (radius : nat) : list float :=
   let ws := map (fun k => f_exp (-0.5 / (sd * sd) * ((Z2f (Z.of_nat k) - Z2f (Z.of_nat radius)) * (Z2f (Z.of_nat k) - Z2f (Z.of_nat radius)))))
                 (seq 0 (2 * radius + 1)) in
   let s := sumT FOps ws in map (fun x => x / s) ws.
+Fixpoint incrb (l : list float) : bool :=
+  match l with
+  | a :: ((b :: _) as r) => (a <? b) && incrb r
+  | _ => true
+  end.
 Definition tol9 : float := 0x1p-27.
 (* model angles of a vector vs the implementation's (nan = None) *)
 Definition ang_close (m : option P * float) (i : option P) : bool :=
@@ -74,6 +79,9 @@ Definition ok (c : case) : bool :=
   | Cpdf lower steps ea ep sd radius kern domrd vs ws aps shape out =>
       (* the implementation's grid is the model's grid, the kernel is scipy's *)
       fclose_list (az_edges FOps steps) ea && fclose_list (polar_edges FOps lower steps) ep &&
+      (* hypothesis grid_ok of C20_counted_vectors, on the implementation's edges *)
+      incrb ea && incrb ep && (hd 1 ea =? 0) && fclose (last ea 0) (2 * f_pi) &&
+      fclose (hd 1 ep) (if lower then f_pi / 2 else 0) && fclose (last ep 0) (if lower then f_pi else f_pi / 2) &&
       fclose_list_tol tol9 (gkernel sd radius) kern &&
       Nat.eqb (fst shape) (pred (List.length ea)) && Nat.eqb (snd shape) (pred (List.length ep)) &&
       (* the model's to_polar of every vector agrees with the implementation's; the bins are
